@@ -26,7 +26,7 @@ REQUIRED = {t: {"src_random": 10, "src_eecc": 5, "src_mpcc": 5, "src_adversarial
 
 
 def gen_cases(tier, seed):
-    n = 300 if tier == "quick" else 5000
+    n = 300 if tier == "quick" else 50000
     return [{"seed": seed * 100019 + i} for i in range(n)]
 
 
